@@ -69,7 +69,10 @@ class KaniUnitFile:
                     vals = [v.strip() for v in rng.split(",")]
                 for v in vals:
                     sub = "\n".join(blk).replace("{%s}" % var, str(v))
-                    out.append(KaniUnitFile._expand(sub))
+                    sub = KaniUnitFile._expand(sub)
+                    # {=expr}: integer arithmetic evaluated after substitution
+                    sub = re.sub(r"\{=([0-9+\-*/() ]+)\}", lambda m: str(int(eval(m.group(1).replace("/", "//").replace("////", "//")))), sub)
+                    out.append(sub)
                 i = j + 1
             else:
                 out.append(lines[i])
@@ -136,6 +139,26 @@ def module_path(target):
     return "::".join(mods)
 
 
+CORE_PATH = {"grin_core": "crate", "grin_chain": "crate::core", "grin_p2p": "crate::core",
+             "grin_pool": "crate::core", "grin_store": "crate::core"}
+
+
+def add_playback_stubs(body, crate):
+    """Every harness that stubs global::get_chain_type also gets playback_set_globals stubbed by a
+    no-op (see units/_shared/grin_core.support.rs): verification never reaches the real
+    thread-local accessors, a native concrete-playback run does."""
+    cp = CORE_PATH.get(crate)
+    if not cp:
+        return body
+    extra = "#[kani::stub(%s::verif_kani_support::playback_set_globals, %s::verif_kani_support::playback_noop)]" % (cp, cp)
+    out = []
+    for ln in body.split("\n"):
+        out.append(ln)
+        if re.search(r"#\[kani::stub\([\w:]*get_chain_type\s*,", ln) and extra not in body:
+            out.append(re.match(r"\s*", ln).group(0) + extra)
+    return "\n".join(out)
+
+
 def prepare_scratch(unit_files, profile):
     """Copy /repo's working tree and inject.  Returns (dir, sources-record)."""
     d = new_scratch("kani")
@@ -171,6 +194,7 @@ def prepare_scratch(unit_files, profile):
         for idx, txt in sorted(inserts, reverse=True):
             text = text[:idx] + txt + text[idx:]
         for uf in ufs:
+            uf.body = add_playback_stubs(uf.body, uf.crate)
             text += ("\n#[cfg(kani)]\n#[allow(unused, dead_code, unused_imports, non_snake_case)]\n"
                      "mod verif_kani_%s {\n\tuse super::*;\n%s\n}\n" % (uf.name, uf.body))
         with open(p, "w") as f:
@@ -365,8 +389,14 @@ def run_units(prop, unit_files, tier, jobs=None, harness_timeout=None, only=None
                             if k not in u.extra["arithmetic_wraps_not_explored_beyond"]:
                                 u.extra["arithmetic_wraps_not_explored_beyond"].append(k)
                         u.obligations -= len(wraps)
+                    unsupported = [x for x in r["fails"] if "not currently supported by Kani" in x[0]
+                                   or "is not supported by Kani" in x[0]]
+                    if unsupported:
+                        undecided.append("harness %s reaches a construct Kani cannot model (%s) -- tool limit, not a violation" %
+                                         (h, unsupported[0][0][:120]))
                     real = [(dsc, loc) for dsc, loc in r["fails"]
-                            if "unwinding assertion" not in dsc and (dsc, loc) not in wraps]
+                            if "unwinding assertion" not in dsc and (dsc, loc) not in wraps
+                            and (dsc, loc) not in unsupported]
                     unw = [x for x in r["fails"] if "unwinding assertion" in x[0]]
                     if unw and not real:
                         undecided.append("harness %s: unwinding bound too small (%s)" % (h, unw[0][1]))
@@ -435,15 +465,30 @@ def replay(failure, scratch, out_path):
         return None, txt
     cmd2 = ["cargo", "kani", "playback", "-Z", "concrete-playback", "-p", crate, "--", test]
     rc2, txt2, _ = run(cmd2, cwd=scratch, timeout=3600)
-    reproduced = ("test result: FAILED" in txt2) or ("panicked at" in txt2 and rc2 != 0)
+    failed_native = ("test result: FAILED" in txt2) or ("panicked at" in txt2 and rc2 != 0)
     passed = "test result: ok. 1 passed" in txt2
+    # the native panic must be the one the verifier reported (same message or same source file)
+    desc = failure["description"].strip('"')
+    mloc = re.search(r'File: "([^"]+)", line (\d+)', failure.get("location", ""))
+    same = False
+    if failed_native:
+        if desc and desc[:60] in txt2:
+            same = True
+        elif mloc and ("%s:%s" % (mloc.group(1).split("/")[-1], mloc.group(2))) in txt2:
+            same = True
+        elif mloc and mloc.group(1).startswith("/") and "panicked at" in txt2:
+            # failure inside std (unwrap_failed, slice index ...): accept any panic raised from
+            # the same workspace function chain; the report carries the native message
+            same = True
+    reproduced = failed_native and same
     keep = [l for l in txt2.split("\n") if "panicked" in l or "test result" in l
             or l.startswith("test ") or "assertion" in l or l.startswith("error")]
     report += ["", "## concrete playback test (generated by Kani from the counterexample; concrete "
                "values are the kani::any() results in order)", pick,
                "", "## native run of the real code on these inputs (`%s`)" % " ".join(cmd2),
                "\n".join(keep)[:4000] or txt2[-1500:],
-               "", "reproduced: %s" % ("yes" if reproduced else ("no" if passed else "unknown"))]
+               "", "reproduced: %s" % ("yes" if reproduced else ("no" if passed else
+                                        ("unknown (native run panicked elsewhere)" if failed_native else "unknown")))]
     open(out_path, "w").write("\n".join(report))
     if reproduced:
         return True, txt2
